@@ -28,6 +28,20 @@ CLAIMED = {
             "generated with any prover randomness is accepted by query+decide for any admissible query randomness.",
             "NOT covered: sharding, verification with real XOFs, aggregator counts, multi-proof, wire round trips inside the pipeline - see outside_claim in the evidence. "
             "This check therefore cannot see defects that live only in Prio3's seed handling.", "DESIGN.md §4 C01", False),
+    "C02": ("bounded symbolic model checking (Kani/CBMC) of Prio3's structural rejection conditions (stub XOF, GF(17))",
+            "Structural half of the property only: verify_next releases the stored output share iff ALL bytes of the aggregator's own joint-randomness seed equal the message's (every seed pair), "
+            "never continues, and refuses missing seeds; verifier_shares_to_message accepts iff EVERY proof's summed verifier satisfies the decision predicate (two proofs, every verifier value), "
+            "and refuses wrong share counts (0, 1, 3; 256+ via engine M under C16), wrong verifier lengths and missing joint-randomness parts; decide equals the reference predicate and the "
+            "validity circuits equal their specification, with Count/Sum vanishing exactly on valid encodings (C05 harnesses tagged C02). These are the conditions a tampered report must get past.",
+            "NOT covered: that a tampered or invalid report actually violates one of these conditions except with negligible probability (FLP soundness, hash binding of the joint randomness) - "
+            "a probability statement over XOF outputs, outside this family. The XOF is a constant-stream stub; instances are small GF(17) ones.", "DESIGN.md §4 C02", False),
+    "C04": ("bounded symbolic model checking (Kani/CBMC) of Poplar1's verification state machine and sketch combination",
+            "State machine only: Poplar1::verify_next finishes only from (round two, Done) and releases exactly the stored output share, continues only from (round one, sketch of the same field) "
+            "into round two with the same output share and the specified round-two share, and refuses every other state/message pairing (incl. Done in round one); finish_sketch equals its formula for "
+            "all values over GF(17); verifier_shares_to_message yields Done iff the two round-two shares sum to zero (inner level for all Field64 values, leaf level over Field255 for a range of values), "
+            "the element-wise sum for round-one shares, and refuses wrong counts, lengths and mixed inner/leaf shares.",
+            "NOT covered: that a malformed report fails the sketch except with negligible probability, IDPF outputs, canonical decoding of correction words (bitvec), alterations of shares in transit - "
+            "everything that runs through the IDPF or an XOF.", "DESIGN.md §4 C04", False),
     "C05": ("bounded symbolic model checking (Kani/CBMC) of the validity circuits, decide, query refusal and length formulas over GF(17)",
             "For each shipped circuit at small parameters, valid() equals the draft's formula written independently (all inputs, joint randomness and share counts 1..3, incl. the "
             "zero-padded partial chunk and the 1/num_shares constants, the latter for every share count 1..1000 over GF(61441)); decide() equals the reference predicate for every verifier "
@@ -90,13 +104,16 @@ CLAIMED = {
             "Aggregator::aggregate for Prio3Count and Prio2 equals any partition into batches merged in any order and checks every share including the first; "
             "Poplar1FieldVec refuses Inner/Leaf and length mismatches unchanged.",
             "Vector lengths <= 3, three shares; Poplar1 leaf (Field255) sums are outside; unshard's decode step is C01's subject.", "DESIGN.md §4 C13", False),
+    "C19": ("bounded symbolic model checking (Kani/CBMC) of Prio2's parameter bounds, proof packing and aggregator-side formulas over GF(17)",
+            "Narrow slice: Prio2::new is total for every usize; proof_length/unpack_proof accept exactly dim + 3 + nextpow2(dim+1) elements and tile the slice in wire order (dim 0..6, every length 0..20); "
+            "generate_verification_message equals interpolate-and-evaluate references for dimension 1 (every proof share, query point and role; dimension 2 in the thorough tier), including the case where "
+            "dimension + 1 is a power of two; is_valid_share accepts iff (f1+f2)(g1+g2) = h1+h2; wrong-length shares are refused; the verifier-share codec accepts exactly canonical elements.",
+            "NOT covered: client proof generation, end-to-end acceptance/aggregation, soundness, the query-point exclusion (choose_eval_at exhausts CBMC memory); GF(17) stands in for FieldPrio2.",
+            "DESIGN.md §4 C19", True),
 }
 
 NOT_APPLICABLE = {
-    "C02": "rejection of invalid or tampered reports is FLP soundness (a probability bound) plus hash binding of the joint randomness; the structural refusals that are decidable (share count/length/missing parts, decide = reference predicate, circuits = specification) are decided under C16 and C05 and are too thin to carry this property",
     "C03": "sharding, IDPF evaluation and the sketch run through the bitvec crate (CBMC out of memory) and AES/TurboSHAKE on symbolic input; the only reachable piece (u16 arithmetic of verify_init, aggregation-parameter codec header) is decided under C16/C07/C08",
-    "C04": "accepted-implies-one-hot is a probabilistic statement about the sketch over IDPF outputs (bitvec + XOF, not encodable); the planned GF(17) state-machine harnesses for verify_next/next_message were not built in the time available, so nothing of this property is claimed",
-    "C19": "Prio2::new is decided under C16; proof packing, generate_verification_message over GF(17) and the Prio2 codecs were planned but not built in the time available; client proof generation is hard-wired to an AES-CTR Prng and the query-point exclusion is a 32-bit root-of-unity test, both outside this family's reach",
     "C06": "IDPF: every entry point (IdpfInput, Idpf::gen/eval, caches, public-share codec) is built on the bitvec crate, which drives CBMC out of memory (65 GB) on a 3-bit input, and on AES/TurboSHAKE over symbolic seeds; not encodable by the solver-based family here",
     "C14": "quantifies over rayon work-stealing schedules; Kani does not model threads and the fold/reduce closures cannot be driven without rayon - a hand model would verify the model, not the code",
     "C15": "an exact probability law over random tapes computed with heap BigUint rationals inside unbounded rejection loops; a measure, not a forall-assertion, and num-bigint division is far beyond bit-blasting reach",
